@@ -1,14 +1,12 @@
 #!/bin/sh
-# usage: tools/try_patch.sh <patch.diff> <PROP>...   applies to /repo, runs quick checks, reverts
+# usage: tools/try_patch.sh <patch.diff> <PROP>...   applies to /repo, runs quick checks, restores HEAD
 P="$(realpath "$1")"; shift
 cd /repo || exit 3
-if ! git apply --check "$P" 2>/dev/null; then
-  if ! git apply --3way --check "$P" 2>/dev/null; then echo "PATCH DOES NOT APPLY: $P"; exit 2; fi
-  git apply --3way "$P" >/dev/null 2>&1
-else
-  git apply "$P"
-fi
+if [ -n "$(git status --porcelain)" ]; then echo "/repo is dirty, refusing"; exit 3; fi
+if git apply --check "$P" 2>/dev/null; then git apply "$P"
+elif git apply --3way --check "$P" 2>/dev/null; then git apply --3way "$P" >/dev/null 2>&1
+else echo "PATCH DOES NOT APPLY: $P"; exit 2; fi
 for id in "$@"; do
-  (cd /verif && ./check "$id" 2>&1 | grep -v "^WARNING" | tail -8; )
+  (cd /verif && ./check "$id" 2>&1 | grep -v "^WARNING" | tail -${TAIL:-6}; )
 done
-git -C /repo checkout -- . ; git -C /repo reset -q
+git -C /repo reset -q --hard HEAD
